@@ -179,7 +179,7 @@ func checkListingWriter(ctx *Ctx, roles *EmitterRoles, fn *ssa.Function, byType 
 	var renders []RenderEvent
 	ip.Hooks.OverrideCall = func(ip *absint.Interp, st *absint.State, f *ssa.Function, a []absint.Val) (absint.Val, bool) {
 		if f.Pkg != nil && strings.HasSuffix(f.Pkg.Pkg.Path(), "/xbuf") && f.Signature.Recv() != nil {
-			renders = append(renders, RenderEvent{Sink: "xbuf." + f.Name(), Vals: a[1:], Guards: ip.Guards(st), Pos: ip.CurPos()})
+			renders = append(renders, RenderEvent{Sink: "xbuf." + f.Name(), Vals: a[1:], Guards: ip.PathGuards(st), Pos: ip.CurPos()})
 			if f.Signature.Results().Len() == 1 {
 				return a[0], true
 			}
@@ -307,6 +307,14 @@ func checkListingWriter(ctx *Ctx, roles *EmitterRoles, fn *ssa.Function, byType 
 					seq = append(seq, b)
 				}
 			}
+			// loop form: one rendering site inside `for i := range d` with d = code[x : x+K]
+			// stands for the K bytes code[x+i], i = 0..K-1 (the loop test in force bounds i by
+			// the constant length of d)
+			if len(seq) == 1 && rec.K >= 1 && seq[0].idx != nil {
+				if exp, ok := expandLoopRender(ip, seq[0], rec.K); ok {
+					seq = exp
+				}
+			}
 			if len(seq) != rec.K {
 				msg = fmt.Sprintf("renders %d bytes of the buffer, the helper %s emits %d", len(seq), rec.Helper, rec.K)
 				continue
@@ -339,6 +347,50 @@ func checkListingWriter(ctx *Ctx, roles *EmitterRoles, fn *ssa.Function, byType 
 		}
 	}
 	R.Count("writer-arms", len(arms))
+}
+
+// expandLoopRender recognises a byte rendered at code[x + i] where i is the counter of a
+// loop whose test in force is i < K, and returns the K renderings it stands for.
+func expandLoopRender(ip *absint.Interp, b renderedByte, K int) ([]renderedByte, bool) {
+	var lv *absint.Atom
+	for _, d := range absint.LinDeps(b.idx.Lin) {
+		if strings.HasPrefix(d.Key, "loopvar:") {
+			if lv != nil {
+				return nil, false
+			}
+			lv = d
+		}
+	}
+	if os.Getenv("SVDEBUG") != "" {
+		fmt.Println("LOOPRENDER idx", b.idx.Lin.Key(), "lv", lv != nil)
+		for k, v := range b.guards {
+			fmt.Println("    guard", trunc(k), v)
+		}
+	}
+	if lv == nil {
+		return nil, false
+	}
+	w := b.idx.W
+	lvInt := absint.NewSym(w, lv, true)
+	for _, off := range []uint64{0, 1} { // index loops count from the variable itself, range loops from variable+1
+		i := ip.Ops.Add(lvInt, absint.NewConst(w, off, true))
+		bound := fmt.Sprintf("(%s<%x)", i.Lin.Key(), K)
+		if v, ok := b.guards[bound]; !ok || !v {
+			continue
+		}
+		base := ip.Ops.Sub(b.idx, i)
+		for _, d := range absint.LinDeps(base.Lin) {
+			if d == lv {
+				return nil, false
+			}
+		}
+		var out []renderedByte
+		for j := 0; j < K; j++ {
+			out = append(out, renderedByte{idx: ip.Ops.Add(base, absint.NewConst(w, uint64(j), true)), guards: b.guards})
+		}
+		return out, true
+	}
+	return nil, false
 }
 
 func checkDbChunks(ctx *Ctx, roles *EmitterRoles, lineS *types.Struct, fType, fAddr, fCount int) {
